@@ -12,7 +12,8 @@ Read from the current source on every run (regex over the function bodies):
   * wait_for_child: the order of {flag load, try_wait, deadline test, sleep} inside the loop,
     the deadline comparison (`>=` or `>`), the lower clamp of the poll interval, and that both
     error exits call terminate_child (kill + wait);
-  * join_capture: whether the overflow flag is re-read after the join and before UTF-8 validation;
+  * join_capture: whether and how the overflow flag is re-read after the join and before UTF-8
+    validation (own code only / any recorded overflow / not at all);
   * run_host_process: join order on the success path and on the error path.
 The model (theories/Capture.v) takes these values from here, and proofs/CaptureProofs.v proves the
 theorems for exactly these values, so an edit of the source that changes one of them either
@@ -120,12 +121,15 @@ def generate():
     if not re.search(r"if\s+policy\s*!=\s*OutputPolicy::Capture\s*\{\s*return\s+None", sp):
         raise TranslatorError("spawn_capture_reader: `policy != Capture => None` not found")
 
-    sc = fn_body(src, "stream_code")
-    m1 = re.search(r"ProcessStream::Stdout\s*=>\s*(\d+)", sc)
-    m2 = re.search(r"ProcessStream::Stderr\s*=>\s*(\d+)", sc)
-    if not (m1 and m2):
-        raise TranslatorError("stream_code: arms not found")
-    jc1, jc2 = int(m1.group(1)), int(m2.group(1))
+    if re.search(r"\bfn\s+stream_code\b", src):
+        sc = fn_body(src, "stream_code")
+        m1 = re.search(r"ProcessStream::Stdout\s*=>\s*(\d+)", sc)
+        m2 = re.search(r"ProcessStream::Stderr\s*=>\s*(\d+)", sc)
+        if not (m1 and m2):
+            raise TranslatorError("stream_code: arms not found")
+        jc1, jc2 = int(m1.group(1)), int(m2.group(1))
+    else:
+        jc1, jc2 = rc1, rc2        # no separate table: the joins can only use the readers' codes
 
     sf = fn_body(src, "stream_from_code")
     arms = re.findall(r"(\d+|_)\s*=>\s*ProcessStream::(Stdout|Stderr)", sf)
@@ -167,11 +171,22 @@ def generate():
     # ---------------------------------------------------------------- join
     jc = fn_body(src, "join_capture")
     p_join = jc.find(".join()")
-    m = re.search(r"if\s+overflow\.load\([^)]*\)\s*==\s*stream_code\(stream\)\s*\{\s*return\s+Err\(ProcessError::OutputLimitExceeded\(stream\)\)", jc)
     p_utf = jc.find("String::from_utf8(")
     if p_join < 0 or p_utf < 0:
         raise TranslatorError("join_capture: join / from_utf8 not found")
-    join_recheck = bool(m) and p_join < m.start() < p_utf
+    between = jc[p_join:p_utf]
+    # (a) only the joined stream's own code fails the join
+    m_own = re.search(r"if\s+overflow\.load\([^)]*\)\s*==\s*stream_code\(stream\)\s*\{\s*return\s+Err\(ProcessError::OutputLimitExceeded\(stream\)\)", between)
+    # (b) any recorded overflow fails the join, reported for the recorded stream
+    m_any = re.search(r"let\s+(\w+)\s*=\s*overflow\.load\([^)]*\)\s*;\s*if\s+\1\s*!=\s*0\s*\{\s*return\s+Err\(\s*ProcessError::OutputLimitExceeded\(\s*stream_from_code\(\1\)\s*\)\s*\)", between)
+    if m_own and not m_any:
+        join_recheck = "RecheckOwn"
+    elif m_any and not m_own:
+        join_recheck = "RecheckAny"
+    elif "overflow" not in between:
+        join_recheck = "RecheckNone"
+    else:
+        raise TranslatorError("join_capture: the overflow re-check between join and from_utf8 has a shape I do not know")
     if not re.search(r"let\s+Some\(handle\)\s*=\s*reader\s+else\s*\{\s*return\s+Ok\(None\)", jc):
         raise TranslatorError("join_capture: `None reader => Ok(None)` not found")
     utf8_err = bool(re.search(r"String::from_utf8\(bytes\)\.map_err\(\|_\|\s*ProcessError::InvalidUtf8\(stream\)\)", jc))
@@ -201,6 +216,7 @@ def generate():
     A("Inductive stream := S1 | S2.            (* S1 = stdout, S2 = stderr *)")
     A("Inductive flag_update_kind := FlagCas | FlagStore | FlagOr | FlagNone.")
     A("Inductive wait_step := WFlagCheck | WTryWait | WDeadlineCheck | WSleepStep.")
+    A("Inductive recheck_mode := RecheckNone | RecheckOwn | RecheckAny.")
     A("")
     A("(* read_captured_stream *)")
     A("Definition read_chunk : Z := %d." % read_chunk)
@@ -224,7 +240,9 @@ def generate():
     A("Definition timeout_exit_kills : bool := %s." % b(timeout_exit_kills))
     A("Definition kill_then_wait : bool := %s." % b(kill_then_wait))
     A("(* join_capture *)")
-    A("Definition join_recheck : bool := %s.     (* flag re-read after join, before UTF-8 validation *)" % b(join_recheck))
+    A("(* flag re-read after the join and before UTF-8 validation: not at all / fails only on the joined")
+    A("   stream's own code / fails on any recorded overflow (reported for the recorded stream) *)")
+    A("Definition join_recheck_mode : recheck_mode := %s." % join_recheck)
     A("Definition utf8_checked : bool := %s." % b(utf8_err))
     A("(* run_host_process *)")
     A("Definition err_join_order : list stream := [%s]." % "; ".join(strm(x) for x in err_joins))
